@@ -4,6 +4,7 @@ package main
 // functions under contract.
 
 import (
+	"path/filepath"
 	"fmt"
 	"go/ast"
 	"go/token"
@@ -190,6 +191,10 @@ func loadWorld(repo string) (*World, error) {
 						if id, ok := t.(*ast.Ident); ok {
 							name = id.Name + "." + name
 						}
+					}
+					if name == "init" && dd.Recv == nil {
+						// a package may have one init per file: keep them apart
+						name = "init@" + strings.TrimSuffix(filepath.Base(fname), ".go")
 					}
 					w.funcs[p.PkgPath+"::"+name] = &FuncSite{pkg: p, decl: dd, name: name}
 					// closures, numbered in source order
